@@ -118,3 +118,8 @@ def run(ctx):
             seen.add((tag, extra))
             ctx.violation(RN, key + "|" + tag + "|" + extra, "%s [%s] — admitted instantiation: %s" % (A.RULE_TEXT[tag], extra, inst), "%s:%s" % (s.fn["file"], s.fn["line"]))
     ctx.extra["instantiations_checked"] = total
+
+    if ctx.tier == "thorough":
+        # independent cross-check of the solver by the real type checker: compile-fail witnesses with compiling twins
+        import witness
+        witness.check(ctx, "C33")
